@@ -372,4 +372,49 @@ theorem nat_addr_split {k : AddrKind} {m n : Nat} {a b : Str} (ha : isExtAddr k 
   have := List.append_inj' h (isExtAddr_length ha hb)
   exact ⟨fmtNat_inj this.1, this.2⟩
 
+/-! ## `/`-freeness, packaged for the path proofs -/
+
+def NoSlash (s : Str) : Prop := ∀ c ∈ s, c ≠ '/'
+
+theorem Alnum.noSlash {s : Str} (h : Alnum s) : NoSlash s := h.ne '/' (by decide)
+
+theorem NoSlash.append {a b : Str} (ha : NoSlash a) (hb : NoSlash b) : NoSlash (a ++ b) := by
+  intro c hc
+  rcases List.mem_append.mp hc with hc | hc
+  · exact ha c hc
+  · exact hb c hc
+
+theorem noSlash_nat (n : Nat) : NoSlash (fmtNat n) := (fmtNat_alnum n).noSlash
+theorem noSlash_addr {k : AddrKind} {s : Str} (h : isExtAddr k s = true) : NoSlash s := (isExtAddr_alnum h).noSlash
+theorem noSlash_hex {s : Str} (h : isHexData s = true) : NoSlash s := (isHexData_alnum h).noSlash
+theorem noSlash_bech {s : Str} (h : isBech32ish s = true) : NoSlash s := (isBech32ish_alnum h).noSlash
+theorem noSlash_int (a : Option Int) : NoSlash (fmtInt a) := fun c hc => (fmtInt_chars a c hc).1
+theorem noSlash_bool (b : Bool) : NoSlash (fmt_t_bool b) := (fmtBool_alnum b).noSlash
+theorem noSlash_hexStr {s : Str} (h : isBytes s = true) : NoSlash (fmtHexStr s) := (fmtHexStr_alnum h).noSlash
+
+theorem addrs_elem {k : AddrKind} {xs : List Str} (h : xs.all (isExtAddr k) = true) :
+    ∀ x ∈ xs, x ≠ [] ∧ ∀ c ∈ x, c ≠ ' ' := fun x hx =>
+  have hx' := List.all_eq_true.mp h x hx
+  ⟨isExtAddr_ne_nil hx', (isExtAddr_alnum hx').ne ' ' (by decide)⟩
+
+theorem noSlash_addrs {k : AddrKind} {xs : List Str} (h : xs.all (isExtAddr k) = true) : NoSlash (fmtSlice xs) :=
+  fmtSlice_noslash fun x hx => noSlash_addr (List.all_eq_true.mp h x hx)
+
+theorem ints_elem (xs : List (Option Int)) : ∀ x ∈ xs.map fmtInt, x ≠ [] ∧ ∀ c ∈ x, c ≠ ' ' := by
+  intro x hx
+  obtain ⟨a, _, rfl⟩ := List.mem_map.mp hx
+  exact ⟨fmtInt_ne_nil a, fun c hc => (fmtInt_chars a c hc).2.1⟩
+
+theorem noSlash_ints (xs : List (Option Int)) : NoSlash (fmtSlice (xs.map fmtInt)) :=
+  fmtSlice_noslash fun x hx => by
+    obtain ⟨a, _, rfl⟩ := List.mem_map.mp hx
+    exact noSlash_int a
+
+theorem members_addr {k : AddrKind} {ms : List BridgeValidator}
+    (h : ms.all (fun m => isExtAddr k m.ExternalAddress && m.Power != 0) = true) :
+    ∀ m ∈ ms, isExtAddr k m.ExternalAddress = true := fun m hm => by
+  have := List.all_eq_true.mp h m hm
+  simp only [Bool.and_eq_true] at this
+  exact this.1
+
 end FxVerif.Proofs.C03
